@@ -6,12 +6,9 @@ CONSTANT GrowModes = {FALSE}
 CONSTANT FloorAhead = 0
 CONSTANT MaxPend = 1000
 CONSTANT Fine = TRUE
+CONSTANT Acts = {"Next", "GTLast", "GTBatch", "GTBegin", "GiveBack", "Idle", "Stop"}
 SPECIFICATION PSpec
 CONSTRAINT Progress
 POSTCONDITION Accept
 CHECK_DEADLOCK FALSE
-INVARIANT Unique
-INVARIANT Above
-INVARIANT NoDoubleRelease
-INVARIANT NoUsedAndReleased
-INVARIANT NothingLost
+INVARIANT ReportP
